@@ -41,7 +41,7 @@ type histOracle interface {
 
 var arithOps = []string{"Add", "Sub", "Mul", "Quo", "FMA", "Sqrt"}
 var copyOps = []string{"Set", "Neg", "Abs", "Copy", "SetMantExp", "MantExp", "SetPrec", "SetMode", "SetInf"}
-var setterOps = []string{"SetInt64", "SetUint64", "SetFloat64", "SetInt", "SetRat", "SetFloat", "SetBitsExp", "BitsSelf"}
+var setterOps = []string{"SetInt64", "SetUint64", "SetFloat64", "SetInt", "SetRat", "SetFloat", "SetBitsExp", "BitsSelf", "BitsEdit"}
 var textOps = []string{"Parse", "SetString", "Scan", "Sscanf", "UnmarshalText", "UnmarshalJSON", "TextCopy", "JSONCopy"}
 var gobOps = []string{"GobCopy", "GobDecode"}
 var ctxHistOps = []string{"c.Add", "c.Sub", "c.Mul", "c.Quo", "c.FMA", "c.Sqrt", "c.Neg", "c.Abs", "c.Set", "c.Err"}
@@ -89,6 +89,9 @@ func genHist(prop string, seed uint64, tier string) *Scenario {
 		for i := 0; i < 3; i++ {
 			menu = append(menu, ctxHistOps...)
 		}
+		// attribute transitions of the context and its factories
+		menu = append(menu, "c.SetPrec", "c.SetMode", "c.SetMode")
+		menu = append(menu, ctxNew...)
 	}
 	if len(menu) == 0 {
 		menu = arithOps
@@ -161,14 +164,16 @@ func genHist(prop string, seed uint64, tier string) *Scenario {
 				}
 			}
 		}
-		if strings.HasPrefix(op.Name, "c.") && inf.writes {
+		if strings.HasPrefix(op.Name, "c.") && inf.writes && r.chance(0.5) {
+			// receiver distinct from its operands (aliased context operations are
+			// documented to round the receiver-operand first; the C10 oracle models that)
 			for k := range op.A {
 				if op.A[k] == op.Z {
 					op.A[k] = (op.Z + 1 + r.intn(nv-1)) % nv
 				}
 			}
 		}
-		if !inf.writes {
+		if !inf.writes && !isCtxFactory(op.Name) {
 			op.Z = -1
 		}
 		if op.Name == "MantExp" && r.chance(0.2) {
@@ -229,9 +234,29 @@ var f64Edges = []float64{0, math.Copysign(0, -1), 1, -1, 0.1, 0.5, 1e-5, 1234567
 	math.SmallestNonzeroFloat64, 2.2250738585072014e-308, math.Inf(1), math.Inf(-1), 1 << 53, 1<<53 + 2, 9.999999999999999e22, 1e23}
 
 // genParams draws the non-variable parameters for the full op menu.
+func isCtxFactory(name string) bool {
+	for _, n := range ctxNew {
+		if n == name {
+			return true
+		}
+	}
+	return false
+}
+
 func genParams(r rng, sc *Scenario, op *Op) {
 	fillParams(r, op)
+	if strings.HasPrefix(op.Name, "c.") {
+		fillCtxParams(r, op)
+	}
 	switch op.Name {
+	case "BitsEdit":
+		op.M = r.intn(6)
+		op.U = r.Uint64()
+		op.I = int64(r.pick(0, 0, 0, 1, -1, 25))
+	case "c.SetPrec":
+		op.I = int64(r.genPrec(r.pick(1, 2, 4), true))
+	case "c.SetMode":
+		op.M = r.intn(6)
 	case "SetPrec":
 		if r.chance(0.06) {
 			op.I = 0
@@ -499,6 +524,12 @@ func runHist(sc *Scenario) *Outcome {
 				c.post[k] = observe(v)
 			}
 			v := or.after(c)
+			if v == nil && results[i].NilRes {
+				// New, NewInt64, NewFloat64, ...: "create a new decimal.Decimal" whatever
+				// the state of the context (only NewString / ParseDecimal may return nil,
+				// together with a reported failure)
+				v = &ViolationRec{Class: "nil-result", Oracle: "factory-contract", Msg: "a Context factory returned a nil *Decimal\n  " + opDesc(c), Sig: "nil-result:" + op.Name}
+			}
 			verifrt.Resume()
 			out.Ops++
 			if results[i].Skipped {
